@@ -16,6 +16,7 @@ def cases_for(prop):
         "C03": ("BinaryRBM.effective_energy_gradient", "PurificationRBM.effective_energy_gradient"),
         "C05": ("BinaryRBM.prob_", "PurificationRBM.prob_"),
         "C10": ("NLL[", "KL[", "fidelity["),
+        "C06": ("compute_batch_gradients[",),
         "C08": ("SigmaZ",),
     }.get(prop, ())
     return [c for c in allc if c.name.startswith(pick)]
